@@ -285,7 +285,7 @@ class DimensionedItem:
         except ValueError:
             raise RuntimeError(f"{self}: {value_label} {value} does not have a regular dimensionality structure")
 
-        dim_from_value = list(arr.shape[1:])
+        dim_from_value = list(arr.shape[1:]) or [1]  # a flat list of values: each value has a single element
         if self.dimension.value is not None:
             if dim_from_value != self.dimension.value:
                 raise RuntimeError(f"{self}: shape of {value_label} {value} (shape {arr.shape}) does not match "
